@@ -16,6 +16,7 @@ for seed in sorted(os.listdir(os.path.join(ROOT, "seeded")), key=lambda s: (0 if
     caught_by_own = any(k.startswith(own + ":") and v["fired"] for k, v in res.items())
     note = meta.get("verdict_note", "")
     status = "caught" if caught_by_own else ("caught by another check" if fired else "MISSED")
+    if meta.get("obsolete"): status = "obsolete"
     cell = "; ".join(fired) if fired else ""
     if missed and len(missed) <= 4: cell += ("; " if cell else "") + "not fired: " + ", ".join(missed)
     elif missed: cell += ("; " if cell else "") + "not fired: %d other checks (full matrix run)" % len(missed)
@@ -29,4 +30,5 @@ assert a in s and b in s
 s = s[:s.index(a) + len(a)] + "\n" + table + "\n" + s[s.index(b):]
 open(p, "w").write(s)
 n = len(rows); c = sum("| caught |" in r for r in rows); o = sum("caught by another" in r for r in rows)
-print("rows:", n, "caught by own check:", c, "by another:", o, "missed:", n - c - o)
+ob = sum("| obsolete |" in r for r in rows)
+print("rows:", n, "caught by own check:", c, "by another:", o, "obsolete:", ob, "missed:", n - c - o - ob)
